@@ -106,12 +106,29 @@ func (h *c11Handles) query(key string) context.Context {
 	if c, ok := h.queries[key]; ok {
 		return c
 	}
+	sub := gojson.BuildSubFieldQuery
 	var q *gojson.FieldQuery
 	switch key {
 	case "AB":
 		q, _ = gojson.BuildFieldQuery("A", "B")
 	case "A-C":
-		q, _ = gojson.BuildFieldQuery("A", gojson.BuildSubFieldQuery("C").Fields("B"))
+		q, _ = gojson.BuildFieldQuery("A", sub("C").Fields("B"))
+	case "C-A":
+		q, _ = gojson.BuildFieldQuery(sub("C").Fields("A", "D"))
+	case "C-C":
+		q, _ = gojson.BuildFieldQuery("B", sub("C").Fields("A", sub("C").Fields("B")))
+	case "C":
+		q, _ = gojson.BuildFieldQuery("C")
+	case "N:B-X":
+		q, _ = gojson.BuildFieldQuery("A", sub("B").Fields("X"))
+	case "N:B-YZ":
+		q, _ = gojson.BuildFieldQuery(sub("B").Fields("Y", "Z"))
+	case "N:P-Z":
+		q, _ = gojson.BuildFieldQuery(sub("P").Fields("Z"), sub("B").Fields("Z"))
+	case "N:all":
+		q, _ = gojson.BuildFieldQuery("A", sub("B").Fields("X", "Y", "Z"), sub("P").Fields("X", "Y", "Z"), sub("L").Fields("Y"))
+	case "N:L-X":
+		q, _ = gojson.BuildFieldQuery(sub("L").Fields("X"), sub("P").Fields("X"))
 	default:
 		q, _ = gojson.BuildFieldQuery("D", "E", "nope")
 	}
@@ -154,6 +171,18 @@ func canonJSON(b []byte) string {
 	canon(n)
 	return serial(n)
 }
+
+type QNInner struct{ X, Y, Z int }
+
+type QN struct {
+	A int
+	B QNInner
+	P *QNInner
+	L []QNInner
+}
+
+// r2pick: which of the QN calls go through a pointer (fixed per query key)
+func r2pick(qk string) bool { return len(qk)%2 == 1 }
 
 // c11Pool builds the deterministic pool of call descriptors of batch idx.
 func c11Pool(seed int64, idx int) []c11Call {
@@ -240,7 +269,7 @@ func c11Pool(seed int64, idx int) []c11Call {
 	}
 	// field queries, shared along the history
 	qt := QT{A: 7, B: "b", C: &QT{A: 8, B: "c"}, D: []int{1, 2}, E: map[string]int{"k": 1}}
-	for _, qk := range []string{"AB", "A-C", "DE", "none"} {
+	for _, qk := range []string{"AB", "A-C", "DE", "none", "C-A", "C-C", "C"} {
 		qk := qk
 		add("MarshalContext:query="+qk, false, func(h *c11Handles) string {
 			ctx := context.Background()
@@ -248,6 +277,23 @@ func c11Pool(seed int64, idx int) []c11Call {
 				ctx = h.query(qk)
 			}
 			b, err := gojson.MarshalContext(ctx, qt)
+			return string(b) + "|" + errClassStr(err)
+		})
+	}
+	// several different sub-field queries over one non-recursive type: the compiled program of the
+	// type is shared by all of them
+	qn := QN{A: 1, B: QNInner{X: 2, Y: 3, Z: 4}, P: &QNInner{X: 5, Y: 6, Z: 7}, L: []QNInner{{X: 8, Y: 9, Z: 10}}}
+	for _, qk := range []string{"N:B-X", "N:B-YZ", "N:P-Z", "N:all", "N:L-X", "none"} {
+		qk := qk
+		add("MarshalContext(QN):query="+qk, false, func(h *c11Handles) string {
+			ctx := context.Background()
+			if qk != "none" {
+				ctx = h.query(qk)
+			}
+			b, err := gojson.MarshalContext(ctx, qn)
+			if r2 := r2pick(qk); r2 {
+				b, err = gojson.MarshalContext(ctx, &qn)
+			}
 			return string(b) + "|" + errClassStr(err)
 		})
 	}
